@@ -274,13 +274,15 @@ def write_cases(cases, path):
             f.write(c.text())
 
 
-def run_all(cases, workdir, tag, flavours=None, hang_secs=8, nshards=16, env=None):
+def run_all(cases, workdir, tag, flavours=None, hang_secs=8, nshards=16, env=None, two_pass=False):
     """run cases on implementation flavours and the model in parallel shards.
-    returns dict: flavour -> {case -> [(step,text)]}, 'model' -> {...}, 'hangs' -> {flavour: [case names]}"""
+    returns dict: flavour -> {case -> [(step,text)]}, 'model' -> {...} (or 'model:<flavour>' when two_pass),
+    'hangs' -> {flavour: [case names]}.
+    two_pass: steps whose implementation observation starts with `ord [k1 k2 ..]` (the container's actual
+    iteration order) are re-issued to the model with ` @ k1 k2 ..` appended: the order is an INPUT of the model."""
     import concurrent.futures as cf
     os.makedirs(workdir, exist_ok=True)
     shards = split_cases(cases, nshards)
-    jobs = []
     results = {"model": {}, "hangs": {}}
     classes = sorted(set(c.cls for c in cases))
     fls = []
@@ -290,17 +292,38 @@ def run_all(cases, workdir, tag, flavours=None, hang_secs=8, nshards=16, env=Non
                 fls.append(fl)
                 results[fl] = {}
                 results["hangs"][fl] = []
+                if two_pass:
+                    results["model:" + fl] = {}
 
     def job_impl(fl, si, path):
         out = os.path.join(workdir, "%s.%d.%s.out" % (tag, si, fl))
         res, order, hangs = run_impl(fl, path, out, hang_secs, env=env)
         names = [c.name for c in shards[si]]
-        return ("impl", fl, res, [names[h] for h in hangs if h < len(names)])
+        mres = None
+        if two_pass:
+            cl = "D" if fl in FLAVOURS["D"] else "U"
+            cs2 = []
+            for c in shards[si]:
+                if c.cls != cl:
+                    continue
+                obs = dict(res.get(c.name, []))
+                steps = []
+                for i, st in enumerate(c.steps):
+                    t = obs.get(i, "")
+                    if t.startswith("ord ["):
+                        steps.append(st + " @ " + t[5:t.index("]")])
+                    else:
+                        steps.append(st)
+                cs2.append(Case(c.name, c.cls, steps))
+            p2 = os.path.join(workdir, "%s.%d.%s.mcases" % (tag, si, fl))
+            write_cases(cs2, p2)
+            mres, _ = run_model(cl, p2, p2 + ".out")
+        return ("impl", fl, res, [names[h] for h in hangs if h < len(names)], mres)
 
     def job_model(cl, si, path):
         out = os.path.join(workdir, "%s.%d.model%s.out" % (tag, si, cl))
         res, order = run_model(cl, path, out)
-        return ("model", cl, res, [])
+        return ("model", cl, res, [], None)
 
     with cf.ThreadPoolExecutor(max_workers=16) as ex:
         futs = []
@@ -309,17 +332,20 @@ def run_all(cases, workdir, tag, flavours=None, hang_secs=8, nshards=16, env=Non
             write_cases(sh_cases, path)
             scl = set(c.cls for c in sh_cases)
             for cl in scl:
-                futs.append(ex.submit(job_model, cl, si, path))
+                if not two_pass:
+                    futs.append(ex.submit(job_model, cl, si, path))
                 for fl in FLAVOURS[cl]:
                     if fl in fls:
                         futs.append(ex.submit(job_impl, fl, si, path))
         for f in futs:
-            kind, key, res, hangs = f.result()
+            kind, key, res, hangs, mres = f.result()
             if kind == "model":
                 results["model"].update(res)
             else:
                 results[key].update(res)
                 results["hangs"][key].extend(hangs)
+                if mres is not None:
+                    results["model:" + key].update(mres)
     return results, fls
 
 
@@ -327,10 +353,10 @@ def compare(cases, results, fls):
     """-> list of disagreements: dict(case, flavour, step, impl, model, kind)"""
     dis = []
     for c in cases:
-        m = results["model"].get(c.name)
         for fl in fls:
             if fl not in FLAVOURS[c.cls]:
                 continue
+            m = results.get("model:" + fl, results["model"]).get(c.name)
             if c.name in results["hangs"][fl]:
                 dis.append(dict(case=c.name, flavour=fl, step=-1, impl="HANG", model="", kind="hang"))
                 continue
@@ -341,6 +367,10 @@ def compare(cases, results, fls):
             for i in range(max(len(r), len(m))):
                 a = r[i] if i < len(r) else None
                 b = m[i] if i < len(m) else None
+                if a is not None and a[1] == "skip":
+                    continue   # step restricted to another flavour
+                if b is not None and b[1] == "exercise-only" and a is not None:
+                    continue   # implementation-only exercise (decided by the oracle: no panic, sane result)
                 if a != b:
                     dis.append(dict(case=c.name, flavour=fl, step=(a or b)[0],
                                     impl=a[1] if a else None, model=b[1] if b else None, kind="diff"))
